@@ -1,6 +1,7 @@
 package props
 
 import (
+	"bytes"
 	"context"
 	"errors"
 	"fmt"
@@ -54,6 +55,8 @@ func c02Details(i int) []proto.Message {
 		return []proto.Message{d1, d2}
 	case 3:
 		return []proto.Message{d2, d2}
+	case 5: // a detail of a message type that is not linked into this binary (a newer or foreign schema)
+		return []proto.Message{&anypb.Any{TypeUrl: "type.googleapis.com/acme.unlinked.v1.QuotaFailure", Value: []byte{0x0a, 0x03, 'c', 'p', 'u', 0x10, 0x07}}, d1}
 	case 4: // one detail of 60 KiB: the status trailer line exceeds 64 KiB
 		return []proto.Message{wrapperspb.String(strings.Repeat("detail-0123456789 ", 60*1024/18))}
 	}
@@ -132,6 +135,10 @@ func (k c02Case) err() error {
 	}
 	e := connect.NewError(connect.Code(k.Code), underlying)
 	for _, d := range c02Details(k.Details) {
+		if raw, ok := d.(*anypb.Any); ok {
+			e.AddDetail(raw) // already a type URL and bytes
+			continue
+		}
 		a, err := anypb.New(d)
 		if err != nil {
 			panic(err)
@@ -219,6 +226,9 @@ func c02Check(c *ev.Collector, k c02Case) {
 		g = Guarded(func() { res = RunCall(context.Background(), cl, k.Cfg.Kind, [][]byte{{1}}, nil) }, tr)
 	}
 	tags := append(k.Cfg.Tags(), fmt.Sprintf("msg=%d", k.Msg))
+	if k.Details == 5 {
+		tags = append(tags, "detail-of-unlinked-type")
+	}
 	if k.Real {
 		tags = append(tags, "real-transport")
 	}
@@ -267,6 +277,14 @@ func c02Check(c *ev.Collector, k c02Case) {
 				viol("same-details", "count", "client has %d details, handler attached %d", len(gd), len(wd))
 			} else {
 				for i := range wd {
+					if raw, ok := wd[i].(*anypb.Any); ok {
+						// type not known here: compare type URL and bytes
+						if got := anyOf(gd[i]); got.TypeUrl != raw.TypeUrl || !bytes.Equal(got.Value, raw.Value) {
+							bad = true
+							viol("same-details", "content", "detail %d differs: got %s %x, want %s %x", i, got.TypeUrl, got.Value, raw.TypeUrl, raw.Value)
+						}
+						continue
+					}
 					m, err := anypb.UnmarshalNew(anyOf(gd[i]), proto.UnmarshalOptions{})
 					if err != nil || !proto.Equal(m, wd[i]) {
 						bad = true
@@ -376,6 +394,21 @@ func c02Cases(thorough bool) []c02Case {
 							}
 						}
 					}
+				}
+			}
+		}
+	}
+	// a detail whose message type is not linked into the binary
+	for _, p := range AllProtos {
+		for _, js := range []bool{false, true} {
+			for _, kind := range AllKinds {
+				cfg := Cfg{Proto: p, JSON: js, Comp: CompDefault, Kind: kind, HTTP: 2}
+				sents := []int{0}
+				if kind.ServerStreams() {
+					sents = []int{0, 1}
+				}
+				for _, sent := range sents {
+					out = append(out, c02Case{Cfg: cfg, Code: 8, Msg: 0, Details: 5, Meta: 1, Sent: sent})
 				}
 			}
 		}
